@@ -410,4 +410,4 @@ CHECKS["C15"] = {
 }
 
 _W = "check built and passing before the latest repo fix commits; temporarily withdrawn while its Lean model is updated to the repaired code"
-PENDING.update({"C12": _W, "C04": _W, "C17": _W, "C19": _W})
+PENDING.update({"C12": _W, "C17": _W, "C19": _W})
